@@ -6,7 +6,7 @@
    `gen_metric_*` are regenerated from BasicContingencyManager on every run (Gen_C09_metrics.v); `ln`
    is the natural logarithm, a parameter (only SEDI uses it); counts are naturals (`xofnat`, `qn`).
    Only statements; every proof is `exact <lemma>` into coq/proofs/C09.v. *)
-From V Require Import lib.Tree gen.Gen_C09_metrics gen.Gen_C09_binary model.C09 proofs.C09.
+From V Require Import lib.Tree lib.C08_aux gen.Gen_C09_metrics gen.Gen_C09_binary gen.Gen_C08_contingency model.C08 model.C09 proofs.C09 proofs.C09_agree.
 From Coq Require Import Morphisms.
 
 (* meaning of `ratio` for counts: NaN iff both zero, +inf iff only the denominator is zero, else the quotient *)
@@ -226,6 +226,27 @@ Theorem C09_swap_base_forecast_rate : forall (ln : xv -> xv) (tp fp fn tn : nat)
   gen_metric_base_rate ln (xofnat tp) (xofnat fn) (xofnat fp) (xofnat tn) =x= gen_metric_forecast_rate ln (xofnat tp) (xofnat fp) (xofnat fn) (xofnat tn).
 Proof. exact swap_base_forecast_rate_nat. Qed.
 Print Assumptions C09_swap_base_forecast_rate.
+
+(* ---- the standalone probability_of_detection / probability_of_false_detection (categorical/binary_impl.py) agree with the manager ---- *)
+(* cell by cell, for ALL values (not only binary ones), their four maps are the manager's maps (Gen_C08_contingency) *)
+Theorem C09_standalone_maps_are_manager_maps : forall f o : xv,
+  fst (gen_pod_maps f o) = map_tp f o /\ snd (gen_pod_maps f o) = map_fn f o /\
+  fst (gen_pofd_maps f o) = map_fp f o /\ snd (gen_pofd_maps f o) = map_tn f o.
+Proof. exact (fun f o => conj (hits_is_tp f o) (conj (misses_is_fn f o) (conj (false_alarms_is_fp f o) (correct_negatives_is_tn f o)))). Qed.
+Print Assumptions C09_standalone_maps_are_manager_maps.
+(* hence, unweighted, on every list of (forecast event, observed event) pairs the standalone POD / POFD are the manager's *)
+Theorem C09_standalone_pod_agrees : forall ln (cells : list (xv * xv)),
+  let sum m := nansum (map (fun c => m (fst c) (snd c)) cells) in
+  gen_pod_ratio (sum (fun f o => fst (gen_pod_maps f o))) (sum (fun f o => snd (gen_pod_maps f o))) =
+  gen_metric_probability_of_detection ln (sum map_tp) (sum map_fp) (sum map_fn) (sum map_tn).
+Proof. exact standalone_pod_agrees. Qed.
+Print Assumptions C09_standalone_pod_agrees.
+Theorem C09_standalone_pofd_agrees : forall ln (cells : list (xv * xv)),
+  let sum m := nansum (map (fun c => m (fst c) (snd c)) cells) in
+  gen_pofd_ratio (sum (fun f o => fst (gen_pofd_maps f o))) (sum (fun f o => snd (gen_pofd_maps f o))) =x=
+  gen_metric_probability_of_false_detection ln (sum map_tp) (sum map_fp) (sum map_fn) (sum map_tn).
+Proof. exact standalone_pofd_agrees. Qed.
+Print Assumptions C09_standalone_pofd_agrees.
 
 (* the host-evaluated logarithm table used by the correspondence check meets the hypothesis of C09_sedi_formula *)
 Theorem C09_lookup_log_proper : forall tbl, Proper (xeq ==> xeq) (lookup_log tbl).
